@@ -1,12 +1,21 @@
 """C09 — merged files are valid and respect the line and dollar limits."""
 import merge_common as M
 import validout
+import c0913x
 
 
 def run(ctx):
-    M.run(ctx, "C09", ["Props/C09.v", "Props/C09Valid.v"], ["Oblig/C08Obl.v", "Oblig/C09Obl.v", "Oblig/ValidMergeObl.v"])
+    M.run(ctx, "C09", ["Props/C09.v", "Props/C09Valid.v", "Props/C09Opts.v"],
+          ["Oblig/C08Obl.v", "Oblig/C09Obl.v", "Oblig/ValidMergeObl.v", "Oblig/C08OptsObl.v", "Oblig/C09OptsObl.v"])
     validout.run(ctx, "merge")
+    # phase 5: outputs valid under the options they carry (Props/C09Opts.v), tied on files valid only under their options
+    base = ctx.search
+    ctx.search = lambda c, factor: base(c, factor) + c0913x.search(c, "merge", factor)
+    if c0913x.build(ctx, "merge"):
+        c0913x.run(ctx, "merge")
 
 
 def replay(path):
+    if c0913x.is_case(path):
+        return c0913x.replay(path)
     return M.replay("C09", path)
